@@ -197,6 +197,8 @@ def run(chk):
              text="every subscript of a calling convention's register order (`_passed_order[group].id[i]`, 16 entries) has an index that is "
                   "bounded below 16 on the path (`i < kMaxRegArgsPerGroup`, a position counter that is tested before it advances): arguments "
                   "beyond the register-passed ones never read a neighbouring group's order as register ids")
+    from lib import floatret
+    floatret.run(chk)
     return chk.finish(
         level="other",
         explanation=("Convention-table clause only: the records built by x86/a64 init_call_conv (extracted from the AST per architecture "
